@@ -5,3 +5,4 @@ INVARIANT InBounds
 INVARIANT PoolBounded
 INVARIANT DataInRange
 CHECK_DEADLOCK FALSE
+VIEW View
